@@ -31,10 +31,21 @@ def gen_source(rng, idx):
     existing_tc = rng.random() < 0.35
     tc_block = "from typing import TYPE_CHECKING\nif TYPE_CHECKING:\n    from geo.points import Point\n" if existing_tc else ""
     local_import = rng.random() < 0.5
+    if idx % 10 == 0 and not any("import *" in p[0] for p in picks):
+        # deterministically: a source that star-imports the module the stub needs `Circle` from, and relies on it
+        picks.append(next(c for c in IMPORT_CHOICES if "import *" in c[0]))
+        imports = "".join(p[0] for p in picks)
+        uses = [p[1] for p in picks if p[1]]
     star = any("import *" in p[0] for p in picks)
-    make_local = not (star and rng.random() < 0.5)       # with the star import `make` may rely on it for Circle
+    make_local = not (star and (idx % 10 == 0 or rng.random() < 0.5))       # with the star import `make` may rely on it for Circle
+    if idx % 10 == 0:
+        local_import = False
     # an import of Point that a later import of the same name shadows in libcst's per-symbol table
     shadow = "none" if existing_tc else rng.choice(["none", "none", "try", "local"])
+    if idx % 10 == 1:
+        existing_tc, tc_block, shadow = False, "", "try"          # deterministically: the shadowed-import shapes
+    elif idx % 10 == 3:
+        existing_tc, tc_block, shadow = False, "", "local"
     if shadow == "try":
         imports += "from geo.points import Point\ntry:\n    from fastgeo import Point\nexcept ImportError:\n    pass\n"
         uses.append("Point.__name__")
